@@ -713,6 +713,8 @@ MODELLED = [
     ('runtime:Runtime.prod#1', 'rule_sum'),
     # elementwise list operations: all elements of both lists (allof_rule_sound_elementwise)
     ('runtime:Runtime.vector_add#1', 'rule_in_prod'), ('runtime:Runtime.vector_sub#1', 'rule_in_prod'),
+    # shift of an array by an array of public amounts: ALL amounts >= f (sound_np_lshift)
+    ('runtime:Runtime.np_left_shift#1', 'rule_np_lshift'),
 ]
 
 
